@@ -248,6 +248,10 @@ func maxHistoryAge(desc *Description) time.Duration {
 }
 
 func getDescriptionFile[T any](name string, allowSubgroups bool, get func(string) (T, error)) (T, string, bool, error) {
+	if !validGroupName(name) {
+		var zero T
+		return zero, "", false, os.ErrNotExist
+	}
 	isSubgroup := false
 	for name != "" {
 		fileName := filepath.Join(
@@ -359,6 +363,10 @@ func DeleteDescription(name, etag string) error {
 func UpdateDescription(name, etag string, desc *Description) error {
 	if desc.Users != nil || desc.WildcardUser != nil || desc.AuthKeys != nil {
 		return errors.New("description is not sanitised")
+	}
+
+	if !validGroupName(name) {
+		return os.ErrNotExist
 	}
 
 	groups.mu.Lock()
@@ -706,6 +714,9 @@ func UpdateUser(group, username string, wildcard bool, etag string, user *UserDe
 	}
 	if user.Password.Type != "" || user.Password.Key != nil {
 		return errors.New("user description is not sanitised")
+	}
+	if !validUsername(username) {
+		return os.ErrNotExist
 	}
 
 	groups.mu.Lock()
